@@ -109,6 +109,8 @@ partial def parseChanges : List String → List (String × String × Nat × Nat)
   | a :: d :: b :: af :: ts, acc => do parseChanges ts ((a, d, ← parseNat b, ← parseNat af) :: acc)
   | _, _ => none
 
+def natList (ts : List String) : Option (List Nat) := ts.mapM parseNat
+
 def resR (r : R St) (s : St) : St × String :=
   match r with
   | .ok s' => (s', "ok")
@@ -148,10 +150,19 @@ def step (s : St) (toks : List String) : St × String :=
       (match parseNat x, parseNat x' with
        | some x, some x' => (s, toString (Sif.Spec.C04.swapBackOK x x'))
        | _, _ => (s, "bad-op"))
-  | ["chk", "c04.addremove", _tag, r, R, A, n, e, n', e'] =>
-      (match parseDec r, parseNat R, parseNat A, parseNat n, parseNat e, parseNat n', parseNat e' with
-       | some r, some R, some A, some n, some e, some n', some e' => (s, toString (Sif.Spec.C04.addRemoveOK r R A n e n' e'))
-       | _, _, _, _, _, _, _ => (s, "bad-op"))
+  | ["chk", "c04.addremove", _tag, r, fS, fB, R, A, n, e, n', e'] =>
+      (match parseDec r, parseDec fS, parseDec fB, natList [R, A, n, e, n', e'] with
+       | some r, some fS, some fB, some [R, A, n, e, n', e'] => (s, toString (Sif.Spec.C04.addRemoveOK r fS fB R A n e n' e'))
+       | _, _, _, _ => (s, "bad-op"))
+  | ["chk", "c02.payout", _tag, P, nD, eD, burned, n', e'] =>
+      (match natList [P, nD, eD, burned, n', e'] with
+       | some [P, nD, eD, burned, n', e'] => (s, toString (Sif.Spec.C01.payoutOK P nD eD burned n' e'))
+       | _ => (s, "bad-op"))
+  | ["chk", "c03.bound", _tag, dbl, t, X1, Y1, X2, Y2, x, r, f, y] =>
+      (match parseBool dbl, parseBool t, natList [X1, Y1, X2, Y2, x], parseDec r, parseDec f, parseNat y with
+       | some dbl, some t, some [X1, Y1, X2, Y2, x], some r, some f, some y =>
+         (s, toString (Sif.Spec.C03.swapBoundOK dbl t X1 Y1 X2 Y2 x r f y))
+       | _, _, _, _, _, _ => (s, "bad-op"))
   | ["chk", "c04.backing", _tag, R, A, P, R', A', P'] =>
       (match parseNat R, parseNat A, parseNat P, parseNat R', parseNat A', parseNat P' with
        | some R, some A, some P, some R', some A', some P' => (s, toString (Sif.Spec.C04.backingOK R A P R' A' P'))
